@@ -617,6 +617,84 @@ fn provenance_case(a: &M, b: &[Rat]) -> Result<(), String> {
     Ok(())
 }
 
+/// Complex<f64> systems whose rows and right-hand side carry power-of-two scales up to 2^+-480 (the quotient a / b of two
+/// representable complex numbers must not depend on |b|^2 being representable). A = diag(rho) * A0 with A0 over small
+/// Gaussian integers, b = tau * diag(rho) * A0 * x*, so the solution tau * x* is known exactly and is unscaled exactly.
+fn complex_scaled_space(ctx: &Ctx, n: usize, nletters: usize) {
+    let letters: Vec<(Cmplx, CQ)> = cletters(true).into_iter().filter(|(z, _)| z.real != TINY).take(nletters).collect();
+    let l = letters.len() as u64;
+    let rhos = [2f64.powi(-480), 2f64.powi(-340), 1.0, 2f64.powi(342), 2f64.powi(480)];
+    let taus = [2f64.powi(-400), 1.0, 2f64.powi(400)];
+    let nr = pow(rhos.len() as u64, n as u32);
+    let per = nr * taus.len() as u64;
+    let len = pow(l, (n * n) as u32) * per;
+    let xstar: Vec<Cmplx> = [Cmplx::new(1.0, 0.0), Cmplx::new(0.0, 1.0), Cmplx::new(-2.0, 1.0)][..n].to_vec();
+    ctx.lattice(
+        &format!("Complex<f64> n={} over {} Gaussian-integer letters x row scales {{2^-480,2^-340,1,2^342,2^480}}^{} x solution scales {{2^-400,1,2^400}}", n, l, n),
+        len,
+        |idx| format!("matrix#{} scales#{}", idx / per, idx % per),
+        |idx, acc| {
+            let mut d = vec![0usize; n * n];
+            digits_uniform(idx / per, l, &mut d);
+            let aq: Vec<Vec<CQ>> = (0..n).map(|i| (0..n).map(|j| letters[d[i * n + j]].1).collect()).collect();
+            if model::det_cq(&aq).is_zero() {
+                acc.hit("singular (skipped)");
+                return;
+            }
+            let mut rd = vec![0usize; n];
+            digits_uniform((idx % per) / taus.len() as u64, rhos.len() as u64, &mut rd);
+            let tau = taus[(idx % taus.len() as u64) as usize];
+            let a0: Vec<Vec<Cmplx>> = (0..n).map(|i| (0..n).map(|j| letters[d[i * n + j]].0).collect()).collect();
+            // b0 = A0 x* in small Gaussian integers: exact in f64
+            let b0: Vec<Cmplx> = (0..n)
+                .map(|i| {
+                    let (mut re, mut im) = (0.0, 0.0);
+                    for j in 0..n {
+                        re += a0[i][j].real * xstar[j].real - a0[i][j].imag * xstar[j].imag;
+                        im += a0[i][j].real * xstar[j].imag + a0[i][j].imag * xstar[j].real;
+                    }
+                    Cmplx::new(re, im)
+                })
+                .collect();
+            let mk = || {
+                let mut m = Matrix::<Cmplx>::new(n, n, Cmplx::new(0.0, 0.0));
+                for i in 0..n {
+                    for j in 0..n {
+                        m[(i, j)] = Cmplx::new(a0[i][j].real * rhos[rd[i]], a0[i][j].imag * rhos[rd[i]]);
+                    }
+                }
+                m
+            };
+            let bv = Vector::create((0..n).map(|i| Cmplx::new(b0[i].real * rhos[rd[i]] * tau, b0[i].imag * rhos[rd[i]] * tau)).collect::<Vec<Cmplx>>());
+            if rd.iter().any(|&k| k != 2) || tau != 1.0 {
+                acc.nontriv("system with a scale beyond 2^+-340");
+            }
+            let key = || format!("complex scaled A0={:?} row scales={:?} tau={:e}", a0, rd.iter().map(|&k| rhos[k]).collect::<Vec<f64>>(), tau);
+            for basic in [true, false] {
+                let name = if basic { "solve_basic" } else { "solve_lu" };
+                let res = catch(|| -> Result<(), String> {
+                    let x = if basic { mk().solve_basic(&bv) } else { mk().solve_lu(&bv) };
+                    ensure!(x.size() == n, "wrong length");
+                    let mut err = 0.0f64;
+                    for j in 0..n {
+                        // unscaling by a power of two is exact
+                        let (re, im) = (x[j].real / tau, x[j].imag / tau);
+                        ensure!(re.is_finite() && im.is_finite(), "{}: x = {:?} is not finite (solution {:?} * {:e})", name, x.vec, xstar, tau);
+                        err = err.max((re - xstar[j].real).abs()).max((im - xstar[j].imag).abs());
+                    }
+                    ensure!(err <= 1e-12, "{}: x / tau = {:?} but the solution is {:?} (error {:e})", name, x.vec.iter().map(|z| (z.real / tau, z.imag / tau)).collect::<Vec<_>>(), xstar, err);
+                    Ok(())
+                });
+                match res {
+                    Ok(Ok(())) => {}
+                    Ok(Err(e)) => acc.fail(idx, key(), e),
+                    Err(p) => acc.fail(idx, key(), format!("unexpected panic: {}", p)),
+                }
+            }
+        },
+    );
+}
+
 fn scaled_space(ctx: &Ctx) {
     // uniformly scaled twins of the 2x2 / 3x3 integer lattices: conditioning is scale invariant, so the same threshold applies
     let scales = [2f64.powi(-60), 2f64.powi(-30), 2f64.powi(40), 1e-18, 1e18];
@@ -699,16 +777,20 @@ fn main() {
     complex_space(&ctx, 1, true);
     complex_space(&ctx, 2, true);
     complex_space(&ctx, 3, false);
+    complex_scaled_space(&ctx, 2, 6);
+    if ctx.thorough() {
+        complex_scaled_space(&ctx, 3, 3);
+    }
     if ctx.thorough() {
         exact_space(&ctx, 3, z5(), "{0,1,-1,2,-2}");
         f64_int_space(&ctx, 3, z5(), "{0,1,-1,2,-2}");
         f64_int_space(&ctx, 4, z3(), "{0,1,-1}");
         exact_space(&ctx, 4, z3(), "{0,1,-1}");
     }
-    // Known findings (known_findings.txt): (1) Complex<f64> beyond |z| ~ 1e154 / below ~ 1e-154: Complex::abs and the complex
-    // division form re^2 + im^2 unscaled, so pivot moduli are inf / 0 and quotients NaN; the division is generic over the
-    // element type and cannot be made robust without a new trait method - not a small patch. (2) Wilkinson's matrix: partial
-    // pivoting has growth 2^(n-1), the backward error is 3.5e-2 at n = 60 - inherent to the algorithm the crate uses.
+    // (1) Complex<f64> beyond |z| ~ 1e154 / below ~ 1e-154: Complex::abs and the complex division formed re^2 + im^2 unscaled,
+    // so pivot moduli were inf / 0 and quotients NaN: repaired (9c56103, 8d587e4), the inputs are demanded now.
+    // (2) Known finding (known_findings.txt): Wilkinson's matrix - partial pivoting has growth 2^(n-1), the backward error is
+    // 3.5e-2 at n = 60 - inherent to the algorithm the crate uses.
     {
         let cplx = |scale: f64, basic: bool| -> Result<(), String> {
             let mut a = Matrix::<Cmplx>::new(2, 2, Cmplx::new(0.0, 0.0));
@@ -733,13 +815,36 @@ fn main() {
             ensure!(e <= BE_THRESHOLD, "normwise backward error {:e}", e);
             Ok(())
         };
-        ctx.known_cases(
-            "listed inputs: Complex<f64> systems of extreme magnitude, Wilkinson's growth matrix",
+        // the inputs of the first and second bug hunts, demanded since the complex division was repaired (8d587e4)
+        let hunt2 = || -> Result<(), String> {
+            // entries in [1, 1e120] only: the intermediate |a_kk|^2 |x_k| of the old quotient overflowed
+            let mut a = Matrix::<Cmplx>::new(2, 2, Cmplx::new(0.0, 0.0));
+            a[(0, 0)] = Cmplx::new(1e120, 0.0);
+            a[(0, 1)] = Cmplx::new(1e120, 0.0);
+            a[(1, 0)] = Cmplx::new(1.0, 0.0);
+            a[(1, 1)] = Cmplx::new(-1.0, 0.0);
+            let b = Vector::create(vec![Cmplx::new(0.0, 0.0), Cmplx::new(2e70, 0.0)]);
+            for basic in [true, false] {
+                let mut m = a.clone();
+                let x = if basic { m.solve_basic(&b) } else { m.solve_lu(&b) };
+                let err = (x[0].real / 1e70 - 1.0).abs() + (x[0].imag / 1e70).abs() + (x[1].real / 1e70 + 1.0).abs() + (x[1].imag / 1e70).abs();
+                ensure!(err <= 1e-12, "x = {:?} but the solution is (1e70, -1e70)", x.vec);
+            }
+            Ok(())
+        };
+        ctx.listed_cases(
+            "listed inputs: Complex<f64> systems of extreme magnitude (bug-hunt inputs, repaired by 8d587e4)",
             vec![
                 ("extreme-complex solve_basic 1e200*[[1+i,2],[3,4-i]] x = 1e200*A(1,i)".to_string(), Box::new(move || cplx(1e200, true))),
                 ("extreme-complex solve_lu 1e200*[[1+i,2],[3,4-i]] x = 1e200*A(1,i)".to_string(), Box::new(move || cplx(1e200, false))),
                 ("extreme-complex solve_basic 1e-200*[[1+i,2],[3,4-i]] x = 1e-200*A(1,i)".to_string(), Box::new(move || cplx(1e-200, true))),
                 ("extreme-complex solve_lu 1e-200*[[1+i,2],[3,4-i]] x = 1e-200*A(1,i)".to_string(), Box::new(move || cplx(1e-200, false))),
+                ("extreme-complex [[1e120,1e120],[1,-1]] x = (0, 2e70)".to_string(), Box::new(hunt2)),
+            ],
+        );
+        ctx.known_cases(
+            "listed inputs: Wilkinson's growth matrix",
+            vec![
                 ("wilkinson-growth solve_basic n=60".to_string(), Box::new(move || wilk(60, true))),
                 ("wilkinson-growth solve_lu n=60".to_string(), Box::new(move || wilk(60, false))),
             ],
